@@ -145,11 +145,12 @@ type ghost struct {
 	Pool     []int64 // community pool delta per token
 	Skynonce uint64
 	FeesOff  bool
+	AccsOff  bool // validators have no account on the bridge's chain any more (the published snapshot still lists them)
 }
 
 func (g *ghost) Clone() explore.Ghost {
 	n := &ghost{X: append([]xfer{}, g.X...), Deposits: append([]int64{}, g.Deposits...), Burned: append([]int64{}, g.Burned...),
-		Pool: append([]int64{}, g.Pool...), UserBal: map[string][]int64{}, Skynonce: g.Skynonce, FeesOff: g.FeesOff}
+		Pool: append([]int64{}, g.Pool...), UserBal: map[string][]int64{}, Skynonce: g.Skynonce, FeesOff: g.FeesOff, AccsOff: g.AccsOff}
 	for k, v := range g.UserBal {
 		n.UserBal[k] = append([]int64{}, v...)
 	}
@@ -220,7 +221,7 @@ func run(r *report.Run, shard, nshards int, replayFile string) {
 		e.supply0 = append(e.supply0, w.Supply(ctx, d))
 		e.pool0 = append(e.pool0, e.communityPool(ctx, d))
 	}
-	r.Rule = "BFS over Send/Cancel/EndBlk50 (batch build)/EndBlkLate (timeout sweep)/EstimateQuorum/ExecutedQuorum/DepositQuorum/GovTax (bridge tax rate or exemption changed while transfers are pending)/DropFees/RestoreFees on the real skyway handlers and end-blocker; every operation is additionally executed once per collaborator call it makes in that state (bank, EVM keeper) with that call failing; a case is distinct by (skyway store, balances, ghost ledger)"
+	r.Rule = "BFS over Send/Cancel/EndBlk50 (batch build)/EndBlkLate (timeout sweep)/EstimateQuorum/ExecutedQuorum/DepositQuorum/GovTax (bridge tax rate or exemption changed while transfers are pending)/DropFees/RestoreFees/DropAccounts/RestoreAccounts (the validators' accounts on the bridge's chain replaced after the snapshot was published) on the real skyway handlers and end-blocker; every operation is additionally executed once per collaborator call it makes in that state (bank, EVM keeper) with that call failing; a case is distinct by (skyway store, balances, ghost ledger)"
 	r.Assumptions = []string{
 		"fault-injected variants of message handlers run through keeper.NewMsgServerImpl(faultyKeeper) inside a cache context (ante not re-run); un-faulted variants are really signed txs through ante + router",
 		"quorum operations (estimates, claims) are macros of three validator messages + end-blocker; vote interleavings are C02's subject",
@@ -604,7 +605,7 @@ func (e *env) ops(n *explore.Node) []explore.Op {
 		if strings.EqualFold(b.TokenContract.GetAddress().Hex(), erc20s[1]) {
 			tok = 1
 		}
-		if b.GasEstimate == 0 {
+		if b.GasEstimate == 0 && !g.AccsOff {
 			add(fmt.Sprintf("EstimateQuorum(batch%d)", b.BatchNonce), func(ctx *sdk.Context, g *ghost, k *skywaykeeper.Keeper) *explore.Fail {
 				for _, v := range w.Vals {
 					res := w.DeliverTx(*ctx, []*world.Actor{v.Actor}, &skywaytypes.MsgEstimateBatchGas{Metadata: world.Meta(v.Actor), Nonce: b.BatchNonce, TokenContract: b.TokenContract.GetAddress().Hex(), EthSigner: v.EthAddr(), Estimate: 21000})
@@ -713,6 +714,25 @@ func (e *env) ops(n *explore.Node) []explore.Op {
 				must(w.SetFee(*ctx, v, ref, "1.0"))
 			}
 			g.FeesOff = false
+			return nil
+		}, false)
+	}
+	// natural address-lookup failure: after the snapshot was published the validators replaced their
+	// external accounts and have none on the bridge's chain (the lookup answers "not found", no error)
+	if !g.AccsOff {
+		add("DropAccounts", func(ctx *sdk.Context, g *ghost, k *skywaykeeper.Keeper) *explore.Fail {
+			for _, v := range w.Vals {
+				must(w.RegisterAccounts(*ctx, v, nil, "elsewhere-1"))
+			}
+			g.AccsOff = true
+			return nil
+		}, false)
+	} else {
+		add("RestoreAccounts", func(ctx *sdk.Context, g *ghost, k *skywaykeeper.Keeper) *explore.Fail {
+			for _, v := range w.Vals {
+				must(w.RegisterAccounts(*ctx, v, nil, ref))
+			}
+			g.AccsOff = false
 			return nil
 		}, false)
 	}
